@@ -113,12 +113,28 @@ type deco struct{ Name, Text string }
 var leads = []deco{
 	{"none", ""}, {"blank", "  "}, {"tab", "\t"}, {"newline", "\n"},
 	{"block-comment", "/* c */ "}, {"dash-comment", "-- c\n"},
+	// `--` comment lines whose dashes are followed by a blank, a tab, a newline or CRLF (MySQL:
+	// `--` starts a comment when white space or a control character follows) and whose TEXT
+	// begins with a read or a write keyword, as in mysqldump-style banners (added after
+	// seeded change c22-5). firstExtraLead is the index of the first of them.
+	{"dash-space-select", "-- Select stale rows\n"},
+	{"dash-tab-select", "--\tselect stale rows\n"},
+	{"dash-tab-show", "--\tshow what is stale\n"},
+	{"dash-newline-banner-select", "--\n-- Select stale rows\n--\n"},
+	{"dash-crlf-banner-select", "--\r\n-- Select stale rows\r\n--\r\n"},
+	{"dash-space-delete", "-- delete old rows\n"},
+	{"dash-tab-delete", "--\tdelete old rows\n"},
+	{"dash-newline-banner-delete", "--\n-- Delete old rows\n--\n"},
 }
+
+const firstExtraLead = 6
 
 // trailers: what drivers and tracing agents append, and what people type
 var trails = []deco{
 	{"none", ""}, {"block-comment", " /* trace */"}, {"dash-comment", " -- x"},
 	{"semicolon", ";"}, {"semicolon-blank", "; "}, {"newline", "\n"}, {"block-comment-semicolon", " /* trace */;"},
+	// dashes followed by the end of the text (added after seeded change c22-5)
+	{"newline-dashes-at-end", "\n--"},
 }
 var cases = []string{"lower", "upper", "mixed"}
 var spaces = []deco{{"blank", " "}, {"tab", "\t"}, {"newline", "\n"}}
@@ -672,6 +688,9 @@ func main() {
 					for _, csl := range csls {
 						for _, tx := range txs {
 							full := tx == "none" && csl == "on" && tr == "query"
+							if r.Quick() && d.ndev == 2 && (d.lead >= firstExtraLead || d.trail == len(trails)-1) {
+								continue // quick: the keyword-bearing `--` banners only on otherwise plain texts
+							}
 							if r.Quick() && d.ndev == 2 && !full {
 								continue // quick: doubly decorated texts only for COM_QUERY outside a transaction, check_select_lock=true
 							}
